@@ -237,6 +237,9 @@ func arrDataKey(d ArrData) string {
 		return s + "}"
 	case *NestedArr:
 		return a.Data.String()
+	case *RefArr:
+		// reads only memoise elements: the identity of the contents is (base name, write version)
+		return fmt.Sprintf("ref:%s:%d:%v", a.Base, a.Ver, a.Dirty)
 	}
 	return fmt.Sprintf("%p", d)
 }
